@@ -58,7 +58,8 @@ def body_qubits(td, ins):
     k, p = ins[0], (ins[1][0] if ins[1] else None)
     if k in ("Gate", "Fence", "Delay"): return list(fld(td, p, k, "qubits"))
     if k == "Measurement": return [fld(td, p, k, "qubit")]
-    if k in ("Pulse", "Capture", "RawCapture", "SetPhase", "SetFrequency", "SetScale", "ShiftPhase", "ShiftFrequency"):
+    # "the qubits a program uses" is the library's used-qubit set (Instruction::get_qubits: C10): frame updates do not count
+    if k in ("Pulse", "Capture", "RawCapture"):
         return list(fld(td, fld(td, p, k, "frame"), "FrameIdentifier", "qubits"))
     if k == "Reset":
         q = fld(td, p, k, "qubit")
